@@ -53,6 +53,8 @@ pub struct Case {
     pub collect_vars: bool,
     /// also carry on after a row that could not be evaluated (error item without a call)
     pub continue_after_row_errors: bool,
+    /// reference fuel (steps, rows)
+    pub fuel: (usize, usize),
 }
 
 impl Case {
@@ -63,7 +65,7 @@ impl Case {
             Err(e) => (None, Some(e)),
         };
         let mid: Answer = sigs.iter().filter(|s| s.is_out()).map(|s| (s.name.clone(), V::Num(3))).collect();
-        Case { name: name.into(), prog, text, sigs, ov, tc, load_error, init_menu, menu, mid: Step::Ans(mid), w_menu: vec![], extra_known: vec![], dev_budget: 0, continue_after_call_errors: false, max_depth, collect_vars: false, continue_after_row_errors: false }
+        Case { name: name.into(), prog, text, sigs, ov, tc, load_error, init_menu, menu, mid: Step::Ans(mid), w_menu: vec![], extra_known: vec![], dev_budget: 0, continue_after_call_errors: false, max_depth, collect_vars: false, continue_after_row_errors: false, fuel: (3000, 200) }
     }
 }
 
@@ -167,7 +169,7 @@ impl E1Model {
 
     fn run_ref(&self, case: &Case, steps: &[Step]) -> RefRun {
         let mut env = ScriptEnv::new(steps);
-        let mut r = run_opts2(&case.prog, &case.sigs, &mut env, Fuel { steps: 3000, rows: 200 }, case.continue_after_call_errors, case.continue_after_row_errors);
+        let mut r = run_opts2(&case.prog, &case.sigs, &mut env, Fuel { steps: case.fuel.0, rows: case.fuel.1 }, case.continue_after_call_errors, case.continue_after_row_errors);
         if r.init == RefInit::Ok && r.end == RefEnd::Halt && r.halted_on_rw.is_none() {
             r.halted_on_rw = Some(true);
         }
